@@ -2,6 +2,8 @@
 package c01
 
 import (
+	"sync"
+	"time"
 	"bytes"
 	"context"
 	"crypto/ecdsa"
@@ -33,6 +35,11 @@ type RunSpec struct {
 	Via      string
 	NilAttrs bool   // the parameters carry no client attributes (struct built directly)
 	Agent    string // honest nokey otherkey otherdata replay garbage empty fail close
+	// StallMS: the forwarded agent answers the challenge only after this many milliseconds (a token waiting
+	// for a touch); DeadlineMS: the run's context carries this deadline (0 = none). Slowness is neither
+	// proof nor refusal: the model is unchanged.
+	StallMS    int `json:",omitempty"`
+	DeadlineMS int `json:",omitempty"`
 	// DirEdit is applied to the registered-key directory before the run: file -> key spec, "" = delete.
 	DirEdit map[string]string
 	// "panic": a harness handler whose Authenticate panics
@@ -137,10 +144,10 @@ func gen(t *rapid.T) Case {
 		}
 		r := RunSpec{
 			LogName: rapid.SampledFrom(names).Draw(t, l+"Log"),
-			Policy:  rapid.SampledFrom([]string{"NONS", "NONS", "NONS", "NSOK"}).Draw(t, l+"Pol"),
+			Policy:  rapid.SampledFrom([]string{"NONS", "NONS", "NONS", "NONS", "NSOK", "NSOK", "nsok", "Nsok", "nsOK", "nons", "NSOK ", "", "NS", "NSOK,NONS"}).Draw(t, l+"Pol"),
 			HardKey: rapid.IntRange(0, 5).Draw(t, l+"HK") == 0,
-			ReqUser: rapid.SampledFrom([]string{"alice", "bob", "root", "carol", "mallory"}).Draw(t, l+"RU"),
-			ReqHost: rapid.SampledFrom([]string{"laptop", "host.example.com"}).Draw(t, l+"RH"),
+			ReqUser: rapid.SampledFrom([]string{"alice", "bob", "root", "carol", "mallory", "svc-deployment-automation-account-for-region-eu-central-1", strings.Repeat("u", 64), strings.Repeat("é", 200)}).Draw(t, l+"RU"),
+			ReqHost: rapid.SampledFrom([]string{"laptop", "host.example.com", "ip-10-20-30-40.eu-central-1.compute.internal.example-cloud.com", strings.Repeat("h", 64), strings.Repeat("x", 3000)}).Draw(t, l+"RH"),
 			Via:     rapid.SampledFrom([]string{"direct", "env"}).Draw(t, l+"Via"),
 			DirEdit: edit,
 			Agent:   rapid.SampledFrom([]string{"honest", "honest", "honest", "nokey", "otherkey", "otherdata", "replay", "replay", "garbage", "empty", "fail", "close"}).Draw(t, l+"Agent"),
@@ -238,9 +245,13 @@ func exec(c Case) (vh.Outcome, error) {
 	captured := map[string][]byte{}
 	var behaviour string
 	var signs []signReq
+	stallMS := 0
 	p.Hook = func(idx int, req []byte) ([]byte, bool, bool) {
 		if len(req) == 0 || req[0] != vh.CodeSign {
 			return nil, false, false
+		}
+		if stallMS > 0 {
+			time.Sleep(time.Duration(stallMS) * time.Millisecond)
 		}
 		blob, data, ok := parseSign(req)
 		if !ok {
@@ -318,11 +329,18 @@ func exec(c Case) (vh.Outcome, error) {
 		}
 		where := fmt.Sprintf("run %d (login %q, policy %s, hardKey %v, agent %s, handlers %v)", ri, r.LogName, r.Policy, r.HardKey, r.Agent, r.Handlers)
 		behaviour = r.Agent
+		stallMS = r.StallMS
 		signs = nil
 		ca := &vh.FakeCA{Default: vh.CABehaviour{NCerts: 1}}
 		hlog := &vh.HandlerLog{}
 		param, perr := vh.BuildParam(vh.ParamSpec{LogName: r.LogName, Policy: r.Policy, HardKey: r.HardKey, ReqUser: r.ReqUser, ReqHost: r.ReqHost, ClientIP: "172.17.0.1", TransID: fmt.Sprintf("%010x", ri), Via: r.Via, NilAttrs: r.NilAttrs})
 		if perr != nil {
+			if r.Policy != "NONS" && r.Policy != "NSOK" {
+				// a namespace policy that is not one of the two defined values is refused when the parameters
+				// are built from the environment: nothing is requested
+				out.Classes = append(out.Classes, "undefined-policy-refused-by-the-loader")
+				continue
+			}
 			return out, vh.Errf("%s: parameters did not build: %v", where, perr)
 		}
 		var handlers []gensign.Handler
@@ -361,7 +379,13 @@ func exec(c Case) (vh.Outcome, error) {
 		}
 		addsBefore := len(p.Adds())
 		var runErr error
-		if cerr := vh.Catch(func() { runErr = gensign.Run(context.Background(), param, handlers, ca) }); cerr != nil {
+		runCtx, runCancel := context.Background(), func() {}
+		if r.DeadlineMS > 0 {
+			runCtx, runCancel = context.WithTimeout(context.Background(), time.Duration(r.DeadlineMS)*time.Millisecond)
+		}
+		cerr := vh.Catch(func() { runErr = gensign.Run(runCtx, param, handlers, ca) })
+		runCancel()
+		if cerr != nil {
 			return out, vh.Errf("%s: Run crashed: %v", where, cerr)
 		}
 		adds := len(p.Adds()) - addsBefore
@@ -572,7 +596,43 @@ func orDefault(name string) string {
 	return name
 }
 
-const rule = "histories of 1..4 runs of gensign.Run sharing one registered-key directory (a third of the later runs first replace, break or delete a '<name>.pub' / '<name>' file) and one scripted forwarded agent; in half of the histories every run uses the same regular.Handler object and forwarded connection, otherwise each run builds its own. Per run: login name (incl. names of other users and 'alice.pub'), namespace policy NONS / NSOK, hardware-key flag, client-declared user / host different from the login name, parameters built directly or through NewReqParam, agent behaviour {honest, lacks the key, signs with another key, signs other data, replays a signature captured earlier in the history, garbage, empty signature, failure, closes the connection}, handler list of 1..4 entries with at most one real regular handler among accepting harness handlers and harness handlers rejecting with every kind of error (authentication, disabled, invalid parameters, unknown, panic-typed, untyped) or panicking inside Authenticate, and accepting harness handlers whose Generate then fails (generation, configuration or untyped error); a tenth of the directly built parameter sets carry no client attributes at all. Directory: '<n>.pub' and bare '<n>' files holding any user's key (RSA, ECDSA, Ed25519, and the types nobody can answer for through the forwarded agent: security-key types (the honest agent does answer for the sk-ed25519 one, as a token would), a certificate line, DSA), both with different keys, unparsable, absent. Oracle: the harness sees every sign request and reply and decides itself (K.Verify over this run's challenge under the registered key) whether the real handler may authenticate; CA call or add-identity => the selected handler is the first in list order that authenticates, earlier ones asked once, later ones never; none => AllAuthFailed, no Generate, no CA call, no add; a handler that crashes while authenticating never counts as authenticated (error returned, no CA call, no add, no later handler used); the first handler that authenticates cannot generate => error, no CA call, no add, no later handler used; a handler authenticates (and generates) => the run succeeds with exactly one request from that handler; challenges are 64 bytes, only under the registered key, pairwise distinct over the history. Non-trivial: an adversarial agent while the key file exists, or a reject before an accept in a list of >= 2."
+const rule = "histories of 1..4 runs of gensign.Run sharing one registered-key directory (a third of the later runs first replace, break or delete a '<name>.pub' / '<name>' file) and one scripted forwarded agent; in half of the histories every run uses the same regular.Handler object and forwarded connection, otherwise each run builds its own. Per run: login name (incl. names of other users and 'alice.pub'), namespace policy NONS / NSOK and spellings that are neither (other letter case, a trailing blank, empty, a prefix, both joined), hardware-key flag, client-declared user / host different from the login name (short, or 55..3000 bytes long), parameters built directly or through NewReqParam, agent behaviour {honest, lacks the key, signs with another key, signs other data, replays a signature captured earlier in the history, garbage, empty signature, failure, closes the connection}, handler list of 1..4 entries with at most one real regular handler among accepting harness handlers and harness handlers rejecting with every kind of error (authentication, disabled, invalid parameters, unknown, panic-typed, untyped) or panicking inside Authenticate, and accepting harness handlers whose Generate then fails (generation, configuration or untyped error); a tenth of the directly built parameter sets carry no client attributes at all. Directory: '<n>.pub' and bare '<n>' files holding any user's key (RSA, ECDSA, Ed25519, and the types nobody can answer for through the forwarded agent: security-key types (the honest agent does answer for the sk-ed25519 one, as a token would), a certificate line, DSA), both with different keys, unparsable, absent. Oracle: the harness sees every sign request and reply and decides itself (K.Verify over this run's challenge under the registered key) whether the real handler may authenticate; CA call or add-identity => the selected handler is the first in list order that authenticates, earlier ones asked once, later ones never; none => AllAuthFailed, no Generate, no CA call, no add; a handler that crashes while authenticating never counts as authenticated (error returned, no CA call, no add, no later handler used); the first handler that authenticates cannot generate => error, no CA call, no add, no later handler used; a handler authenticates (and generates) => the run succeeds with exactly one request from that handler; challenges are 64 bytes, only under the registered key, pairwise distinct over the history. Non-trivial: an adversarial agent while the key file exists, or a reject before an accept in a list of >= 2."
+
+// TestC01Slow: a forwarded agent that takes seconds to answer the challenge (and then proves
+// possession, refuses, or answers with another key), under a run deadline that is longer than that.
+// Taking long is neither proof nor refusal: the same model applies.
+func TestC01Slow(t *testing.T) {
+	var cases []Case
+	for _, agent := range []string{"honest", "nokey", "otherkey", "fail"} {
+		for _, handlers := range [][]string{{"real", "reject"}, {"real", "accept"}, {"reject", "real", "reject", "accept"}, {"real"}} {
+			for _, deadline := range []int{6000, 0} {
+				cases = append(cases, Case{Dir: map[string]string{"alice.pub": "p256b"}, Held: []string{"p256b"},
+					Runs: []RunSpec{{LogName: "alice", Policy: "NONS", ReqUser: "alice", ReqHost: "laptop", Via: "direct", Agent: agent, Handlers: handlers, StallMS: 3500, DeadlineMS: deadline}}})
+			}
+		}
+	}
+	// all of them side by side (each takes the stall time)
+	type batch struct{ Cases []Case }
+	vh.Enumerate(t, vh.Spec[batch]{Property: "C01", Name: "TestC01Slow", Exhaustive: true,
+		Rule: "the forwarded agent answers the challenge only after 3.5 s - honestly with the registered key, without the key, with another key, with a failure - while the run's context carries a 6 s deadline or none; handler lists [real, reject], [real, accept], [reject, real, reject, accept], [real] (32 runs side by side). Oracle: TestC01Auth's, unchanged (a slow agent is neither proof nor refusal): CA call or add => the first handler that authenticates produced the request; a real handler whose agent did not prove possession is never the selected one",
+		Exec: func(b batch) (vh.Outcome, error) {
+			out := vh.Outcome{NonTrivial: true}
+			errs := make([]error, len(b.Cases))
+			var wg sync.WaitGroup
+			for i, c := range b.Cases {
+				i, c := i, c
+				wg.Add(1)
+				go func() { defer wg.Done(); _, errs[i] = exec(c) }()
+			}
+			wg.Wait()
+			for _, e := range errs {
+				if e != nil {
+					return out, e
+				}
+			}
+			return out, nil
+		}}, []batch{{Cases: cases}})
+}
 
 func TestC01Auth(t *testing.T) {
 	vh.Run(t, vh.Spec[Case]{Property: "C01", Name: "TestC01Auth", Rule: rule, Gen: gen, Exec: exec})
